@@ -68,6 +68,8 @@ CONSTANTS Ns,        \* chain lengths of the source
           Layouts,   \* data layouts of the SOURCE array, used (besides the reference layout) with the chain lengths LayNs
           LayNs,     \* chain lengths of the configurations in the layouts of Layouts (every geometry of Geoms; "wide" for
                      \*  LayNs \cap WideNs; joint sets for LayNs \cap JointNs)
+          LayMaxB,   \* burn-in values 0..LayMaxB and thinning values 1..LayMaxT of those configurations
+          LayMaxT,
           Emit,
           FrameNs,     \* frame machine: chain lengths
           FrameGeoms,  \* frame machine: geometry kinds
@@ -304,8 +306,9 @@ JointBurnthinCore(b, t) ==
 JointBurnthin(b, t) == JointBurnthinCore(b, t)
                        /\ EmitEdge("jointburnthin", b, t, Refuses(obj, b) \/ Refuses(obj2, b), obj', obj2')
 
-Bs == 0..MaxB
-Ts == 1..MaxT
+\* burn-in / thinning box of the running configuration (state functions: c is constant along a behaviour)
+Bs == 0..(IF c.lay = RefLayout THEN MaxB ELSE LayMaxB)
+Ts == 1..(IF c.lay = RefLayout THEN MaxT ELSE LayMaxT)
 
 Source(k) == [cols |-> [i \in 1..k.N |-> i - 1], par |-> TRUE, vec |-> TRUE, geom |-> k.g]
 \* second member of a joint set: one sample more, function values of an F-order image
